@@ -1,6 +1,6 @@
 """C18 - results reflect the object's current contents, not earlier calls (E2: operation-history explorer).
 
-Every sequence of operations up to depth d over a 19-operation alphabet (accessor calls, in-place edits, watershed
+Every sequence of operations up to depth d over a 20-operation alphabet (accessor calls, in-place edits, watershed
 calls on other shapes / other objects, a reader call) is executed on freshly built objects in a freshly forked child
 (so no hidden state leaks between histories); afterwards an observation battery is compared with the same battery
 computed in a FRESH INTERPRETER on a freshly constructed object with the same contents.
@@ -26,7 +26,7 @@ DIR1 = np.arange(8) * 45.0
 DIR2 = np.arange(8) * 22.5 + 10.0  # same size, other spacing: the bin width changes
 OPS = ["hs", "tp", "dd", "smooth", "crsd", "stats_unknown", "set_efth", "set_ds_dir", "set_da_dir", "set_freq",
        "ws_shapeA", "ws_shapeB", "other_object", "reader", "efth_values_inplace", "coords_dir", "coords_freq", "da_values_inplace",
-       "observe_all"]
+       "observe_all", "ws_shapeT"]
 EDITS = {"set_efth": 0, "set_ds_dir": 1, "set_da_dir": 2, "set_freq": 3, "efth_values_inplace": 0, "coords_dir": 1, "coords_freq": 3, "da_values_inplace": 4}
 
 
@@ -92,9 +92,10 @@ def apply_op(op, ds, da, env):
         ds.coords["freq"] = FREQ2.copy()
     elif op == "da_values_inplace":
         da.values[...] = efth(2)[1]
-    elif op in ("ws_shapeA", "ws_shapeB"):
+    elif op in ("ws_shapeA", "ws_shapeB", "ws_shapeT"):
         from wavespectra.partition.partition import np_ptm3
-        nf, nd = (3, 4) if op == "ws_shapeA" else (4, 5)
+        # shape T is the transposed shape of the observed spectra (8 x 5 vs 5 x 8): same number of bins, other layout
+        nf, nd = {"ws_shapeA": (3, 4), "ws_shapeB": (4, 5), "ws_shapeT": (len(DIR1), len(FREQ1))}[op]
         z = (np.arange(nf * nd, dtype=float).reshape(nf, nd) * 7 % 11) + 1.0
         np_ptm3(z, z, 0.05 * 1.2 ** np.arange(nf), np.arange(nd) * (360.0 / nd), parts=3, ihmax=50)
     elif op == "other_object":
@@ -243,7 +244,7 @@ def classify_prefix(hist):
     for op in hist:
         if op in EDITS:
             kinds.add(op + ("-after-call" if called else ""))
-        elif op in ("ws_shapeA", "ws_shapeB", "other_object", "reader"):
+        elif op in ("ws_shapeA", "ws_shapeB", "ws_shapeT", "other_object", "reader"):
             kinds.add("other-" + ("watershed" if op.startswith("ws") else op))
         else:
             called = True
@@ -286,7 +287,7 @@ def replay(case):
     return vs
 
 
-REDUCED = ["observe_all", "smooth", "crsd", "ws_shapeA", "other_object"] + sorted(EDITS)
+REDUCED = ["observe_all", "smooth", "crsd", "ws_shapeT", "other_object"] + sorted(EDITS)
 
 
 def histories(depth, tier):
@@ -307,7 +308,7 @@ def run(rep, tier, seed, parts=None):
     common.load_wavespectra()
     os.environ["C18_BATTERY"] = "light" if tier == "quick" else "full"
     depth = 3 if tier == "quick" else 4
-    rep.rule = ("all operation sequences up to depth %d over the 19-operation alphabet %s (quick: full alphabet to depth 2, depth 3 over a reduced 13-operation "
+    rep.rule = ("all operation sequences up to depth %d over the 20-operation alphabet %s (quick: full alphabet to depth 2, depth 3 over a reduced 13-operation "
                 "alphabet with at least one edit, 17-observation battery; thorough: full alphabet to depth 3, reduced alphabet with an edit at depth 4, 28-observation battery); each history runs on freshly built objects in a freshly "
                 "forked child and its 28-observation battery is compared with a fresh interpreter's battery on a freshly constructed "
                 "object of the same contents. A state is (content, accessor/memo/global-table signature) after a history; transitions = "
